@@ -263,11 +263,14 @@ def second_opinion(mod, chk: Check):
         N = {(v.rule, v.key) for v in sub.violations}
         common = P & N
         moved_rules = {r for (r, k) in N - common}
-        verdicts.append((common, moved_rules))
+        verdicts.append((common, moved_rules, bool(N - common)))
         notes[mode] = {"violations": len(N)}
     keep, dropped = [], []
     for v in chk.violations:
-        if verdicts and any((v.rule, v.key) not in common and v.rule not in moved for common, moved in verdicts):
+        anchor = v.rule == "anchor-missing" or "anchor-missing" in v.message
+        # a missing anchor is excused only by a view in which the anchor is found AND nothing new is wrong: if the view that can
+        # finally evaluate the rule reports a violation of its own, the alarm stays
+        if verdicts and any((v.rule, v.key) not in common and v.rule not in moved and not (anchor and unclean) for common, moved, unclean in verdicts):
             dropped.append(v)
         else:
             keep.append(v)
